@@ -53,7 +53,9 @@ def case(draw, tier):
         keys["bad"] = [k for k in keys["live"] if draw(st.integers(0, 1)) == 0] or keys["live"][:1]
     # a node ranked BEFORE the thrower inside the wrapped / mapped graph (the cycle after a captured throw must start with it)
     pre = draw(st.booleans())
-    return {"pre": pre, "end": horizon, "shape": shape, "s0": s0, "s1": s1, "throw_times": throw_times, "self_sched": self_sched,
+    # a self-scheduling sibling ranked AFTER the thrower inside the wrapped graph (known finding F17: it loses its alarms)
+    sibling_timer = shape == "try" and draw(st.integers(0, 3)) == 0
+    return {"pre": pre, "sibling_timer": sibling_timer, "end": horizon, "shape": shape, "s0": s0, "s1": s1, "throw_times": throw_times, "self_sched": self_sched,
             "throw_ords": throw_ords, "period": period,
             "second": second, "fn": draw(st.sampled_from(["sum", "acc", "count"])), "keys": keys}
 
@@ -92,6 +94,11 @@ def build(case, faults: bool):
     elif case["shape"] == "try":
         body = ([{"id": "pre", "op": "node", "ins": [{"arg": 0}], "out": "TS[int]", "fn": "sum", "bias": 100, "log_inputs": False}, dict(T, ins=["pre"])]
                 if case.get("pre") else [dict(T, ins=[{"arg": 0}])]) + [{"id": "post", "op": "node", "ins": ["T"], "out": "TS[int]", "fn": "sum", "bias": 1, "log_inputs": False}]
+        if case.get("sibling_timer"):
+            # [.., T, tm, post]: tm re-arms itself 3 steps after every tick of x; post = T + 1000 * tm
+            post = body.pop()
+            body += [{"id": "tm", "op": "node", "ins": [{"arg": 0}], "out": "TS[int]", "fn": "count", "sched": {"tick": [["s", "rel", 3, None]]}, "log_inputs": False},
+                     dict(post, ins=["T", "tm"], coef=[1, 1000], valid=[])]
         subs["G"] = {"params": ["TS[int]"], "names": ["x"], "out": "TS[int]", "stmts": body, "ret": "post"}
         stmts += [{"id": "te", "op": "op", "name": "try_except", "args": [{"fn": "G"}, {"ts": "s0"}], "has_out": True},
                   {"id": "r_te", "op": "node", "ins": ["te"], "deep": True, "valid": []}]
@@ -151,7 +158,8 @@ def check(case, ctx) -> Result:
             raise Rejected(f"C15 generator produced a program the tree rejects ({what}): {x.get('error')}")
     if r0.get("error"):
         raise HarnessError(f"C15 fault-free program failed: {r0['error']}")
-    feats = {"shape": case["shape"], "self_sched": bool(case["self_sched"]), "second": case["second"]}
+    feats = {"shape": case["shape"], "self_sched": bool(case["self_sched"]), "second": case["second"],
+             "timer_ranked_after_thrower": bool(case.get("sibling_timer"))}
     if r.get("error"):
         res.violations.append(Viol("captured_error_escaped", f"run() threw although every failing node is captured: {str(r['error'].get('what'))[:300]}", feats))
         return res
@@ -271,6 +279,8 @@ def check(case, ctx) -> Result:
         res.labels.append("self_scheduling_thrower")
     if case["second"]:
         res.labels.append("two_failing_nodes")
+    if case.get("sibling_timer"):
+        res.labels.append("timer_ranked_after_thrower")
     if case.get("pre") and case["shape"] != "node":
         res.labels.append("node_ranked_before_thrower_in_child")
     res.summary = {"throw_times": throw_eval_times[:12], "shape": case["shape"]}
